@@ -920,57 +920,11 @@ func ruleC11ReadErrors(p *Prog, a *Anchors, r *Report) {
 					if !isEx || ex.Index != tup.Len()-1 {
 						continue
 					}
-					// the error value, possibly through a local cell or a phi: every nil test of it must send the
-					// non-nil case to an error return; returning it or handing it on counts as used
-					seen := map[ssa.Value]bool{}
-					var walk func(v ssa.Value, d int)
-					walk = func(v ssa.Value, d int) {
-						if seen[v] || d > 6 {
-							return
-						}
-						seen[v] = true
-						for _, uu := range refs(v) {
-							switch x := uu.(type) {
-							case *ssa.BinOp:
-								if (x.Op != token.EQL && x.Op != token.NEQ) || !(isNilConst(x.X) || isNilConst(x.Y)) {
-									used = true
-									continue
-								}
-								for _, bu := range refs(x) {
-									iff, isIf := bu.(*ssa.If)
-									if !isIf {
-										used = true
-										continue
-									}
-									nonNil := iff.Block().Succs[0]
-									if x.Op == token.EQL {
-										nonNil = iff.Block().Succs[1]
-									}
-									if errorReturnsOnly(f, nonNil) {
-										used = true
-									} else if dropped == "" {
-										dropped = p.InstrPos(iff)
-									}
-								}
-							case *ssa.Return, *ssa.Call, *ssa.MakeInterface, *ssa.TypeAssert, *ssa.ChangeInterface:
-								used = true
-							case *ssa.Phi:
-								walk(x, d+1)
-							case *ssa.Store:
-								if x.Val == v {
-									for _, lu := range refs(x.Addr) {
-										if l, isL := lu.(*ssa.UnOp); isL && l.Op == token.MUL {
-											walk(l, d+1)
-										}
-									}
-									if _, isAlloc := x.Addr.(*ssa.Alloc); !isAlloc {
-										used = true // stored into a field/result: handed on
-									}
-								}
-							}
-						}
+					u2, d2 := errValueDiscipline(p, f, ex)
+					used = used || u2
+					if dropped == "" {
+						dropped = d2
 					}
-					walk(ex, 0)
 				}
 				if dropped != "" {
 					r.Bad(key, p.InstrPos(in), "the error of %s is tested at %s, but its non-nil case does not end in an error return: a source the loader handed out but that cannot be read (a directory, a stream that breaks off) is taken for an empty text", name, dropped)
